@@ -256,9 +256,19 @@ func arithClassify(s string) (arithKind, int64, int) {
 
 type c05Case struct {
 	Input string `json:"input"`
+	// History: the inputs evaluated before with the SAME parser objects (a parser is built once and reused; the two
+	// objects are renewed every c05Renew inputs so that the state they may keep between parses stays replayable)
+	History []string `json:"inputs_evaluated_before_with_these_parser_objects,omitempty"`
 }
 
 var arithRoot = ArithParser()
+var c05Hist []string
+
+const c05Renew = 16
+
+func c05RenewParsers() {
+	arithRoot, arithSplitRoot, c05Hist = ArithParser(), ArithParserSplit(), nil
+}
 
 // arithSplitRoot: same language, one left-recursive alternative per operator, and the root wrapped in text.Trim the way
 // examples/json does it (RightTrim then sees an alternative LIST whose first alternative is not the longest)
@@ -270,7 +280,11 @@ func c05One(res *explore.Result, s string, verbose bool) arithKind {
 	ctx := parsley.NewContext(fs, r)
 	var val interface{}
 	var err error
-	cs := c05Case{strconv.Quote(s)}
+	if len(c05Hist) >= c05Renew {
+		c05RenewParsers()
+	}
+	cs := c05Case{strconv.Quote(s), append([]string{}, c05Hist...)}
+	c05Hist = append(c05Hist, strconv.Quote(s))
 	res.Add("transitions", 1)
 	if pm := guard(func() { val, err = parsley.Evaluate(ctx, arithRoot) }); pm != "" {
 		res.Violate("panic", fmt.Sprintf("Evaluate(%s) panicked: %s", q(s), pm), cs)
@@ -440,6 +454,12 @@ func c05Replay(raw json.RawMessage) *explore.Result {
 	if err != nil {
 		res.Notes = append(res.Notes, "bad input")
 		return res
+	}
+	c05RenewParsers()
+	for _, hq := range c.History {
+		if h, err := strconv.Unquote(hq); err == nil {
+			c05One(explore.NewResult(), h, false) // brings the parser objects into the recorded state; verdicts of these runs are not this case's
+		}
 	}
 	c05One(res, s, true)
 	return res
